@@ -153,6 +153,38 @@ def roundtrip_job(job):
                     out.append({"what": "consumer", "which": k})
         if case["itype"] == "file":
             imp.close()
+            # the same tensors written one by one into a file-backed tensor, caps computed by the file-backed object:
+            # identical caps and consumers (the in-memory tensor is the reference)
+            path3 = path + ".built.h5"
+            try:
+                if apt["transforms"] == "scaled":
+                    # transforms that do not preserve the trace vector: FileProcessTensor.compute_caps contracts the
+                    # *transformed* tensors with the transformed trace vectors, SimpleProcessTensor.compute_caps the
+                    # untransformed ones; the two agree exactly when trace.T_in = trace and T_out.trace = trace (every
+                    # basis change does).  The statement of C16 does not fix the meaning of caps for such transforms:
+                    # observation recorded in DESIGN.md, not checked.
+                    raise StopIteration
+                ref = build_from_abstract(dict(apt, caps=[1]))
+                fb = ptmod.FileProcessTensor("write", filename=path3, hilbert_space_dimension=ref.hilbert_space_dimension,
+                                             dt=ref.dt, transform_in=ref.transform_in, transform_out=ref.transform_out)
+                for i in range(n):
+                    fb.set_mpo_tensor(i, np.array(ref._mpo_tensors[i]))      # as handed in (rank 3 or 4)
+                fb.compute_caps()
+                for i in range(n + 2):
+                    if not same(fb.get_cap_tensor(i), ref.get_cap_tensor(i)):
+                        out.append({"what": "file-built-cap", "which": "cap%d" % i})
+                        break
+                else:
+                    a, b = consumers(ref, True), consumers(fb, True)
+                    for k in a:
+                        if not same(a[k], b[k], 1e-11):
+                            out.append({"what": "file-built-consumer", "which": k})
+                fb.close()
+            except StopIteration:
+                pass
+            finally:
+                if os.path.exists(path3):
+                    os.remove(path3)
     except Exception as ex:  # pylint: disable=broad-except
         import traceback
         out.append({"what": "exception", "detail": "%s: %s" % (type(ex).__name__, str(ex)[:160]),
